@@ -16,3 +16,6 @@ Lemma partition_inprocess_parent_ok : partition_inprocess_parent = Some true.
 Proof. vm_compute. reflexivity. Qed.
 Lemma partition_relay_keeps_inherited_ok : partition_relay_keeps_inherited = Some true.
 Proof. vm_compute. reflexivity. Qed.
+(** C17: an inherited entry that the target store does not hold is stored there by value *)
+Lemma partition_cross_store_copied_ok : partition_cross_store_copied = Some true.
+Proof. vm_compute. reflexivity. Qed.
